@@ -17,7 +17,7 @@
    root block, v2 B-trees of depth > 0, new-style (Link Info) groups, filtered chunk contents (deflate is not
    modelled: the chunk extent is recorded, its decoded size is not checked), global heap collections. *)
 From HV Require Import Base.Prelude Base.Outcome Base.Bytes Spec.Parse Spec.Format Spec.FormatMsg Spec.FormatNode
-  Model.Wellformed.
+  Spec.FormatRef Model.Wellformed.
 
 (* ------------------------------------------------------------------ kinds of extents (tools/props/c05walk.py KINDS) *)
 Definition K_superblock : N := 1.    Definition K_ohdr1 : N := 2.        Definition K_ohdr1_cont : N := 3.
@@ -51,9 +51,11 @@ Definition wstrict : wtolerance := fun _ => false.
 Definition wtolerant : wtolerance := fun _ => true.
 
 (* ------------------------------------------------------------------ result *)
-(* kind: 1 group, 2 dataset, 3 link object;  layout: 0 compact, 1 contiguous, 2 chunked (datasets) *)
+(* kind: 1 group, 2 dataset, 3 link object, 4 committed datatype;  layout: 0 compact, 1 contiguous, 2 chunked (datasets);
+   os_dtbits: byte order / signedness / string padding as in the class bit field ([dtype_bits]);
+   os_space: dataspace type 0 scalar, 1 simple, 2 null;  os_links: (link type 0 hard / 1 soft / 64 external, link name) of a group *)
 Record obj_sum := { os_addr : N; os_path : bytes; os_kind : N; os_dims : list N; os_dtclass : N; os_dtsize : N;
-                    os_layout : N; os_attrs : list bytes }.
+                    os_layout : N; os_attrs : list bytes; os_dtbits : N; os_space : N; os_links : list (N * bytes) }.
 Definition xext : Type := (N * N * N)%type.      (* start, end, kind *)
 Record walk_result := { wr_extents : list xext; wr_tree : list obj_sum; wr_tags : list wtag; wr_eof : N; wr_version : N }.
 
@@ -76,18 +78,27 @@ Definition with_rest (r : wrest) (s : wstate) : wstate :=
 
 (* ------------------------------------------------------------------ the walk monad: state + Ok/Err (a [Panic] of a
    decoder is turned into [Err] where it enters: a specification walker rejects, it never panics) *)
-Definition W (A : Type) := wstate -> outcome (A * wstate).
-Definition wret {A} (a : A) : W A := fun st => Ok (a, st).
-Definition werr {A} : W A := fun _ => Err.
+(* a rejection carries a reason code (tools/props/c06walk.py REASONS): 1 a structural clause failed, 2 a decoder rejected or a
+   read left the file, 3 an extent is empty or leaves the file, 10.. named clauses, 200 + tag: a deviation that is not tolerated,
+   1000 + t: message type t is not interpreted *)
+Inductive wres (A : Type) : Type := WOk (a : A) | WErr (code : N).
+Arguments WOk {A} a.
+Arguments WErr {A} code.
+Definition W (A : Type) := wstate -> wres (A * wstate).
+Definition wret {A} (a : A) : W A := fun st => WOk (a, st).
+Definition wfail {A} (code : N) : W A := fun _ => WErr code.
 Definition wbind {A B} (m : W A) (k : A -> W B) : W B :=
-  fun st => match m st with Ok (a, st') => k a st' | _ => Err end.
-Definition wl {A} (o : outcome A) : W A := fun st => match o with Ok a => Ok (a, st) | _ => Err end.
-Definition wguard (c : bool) : W unit := if c then wret tt else werr.
+  fun st => match m st with WOk (a, st') => k a st' | WErr c => WErr c end.
+Definition wlc {A} (code : N) (o : outcome A) : W A := fun st => match o with Ok a => WOk (a, st) | _ => WErr code end.
+Definition wguardc (code : N) (c : bool) : W unit := if c then wret tt else wfail code.
+Notation werr := (wfail 1).
+Notation wl := (wlc 2).
+Notation wguard := (wguardc 1).
 (* read / update everything but the extents *)
-Definition wget {A} (g : wrest -> A) : W A := fun st => Ok (g (rest_of st), st).
-Definition wupd (g : wrest -> wrest) : W unit := fun st => Ok (tt, with_rest (g (rest_of st)) st).
+Definition wget {A} (g : wrest -> A) : W A := fun st => WOk (g (rest_of st), st).
+Definition wupd (g : wrest -> wrest) : W unit := fun st => WOk (tt, with_rest (g (rest_of st)) st).
 (* read the extents (the final cross-structure clauses) *)
-Definition wexts : W (list xext) := fun st => Ok (ws_ext st, st).
+Definition wexts : W (list xext) := fun st => WOk (ws_ext st, st).
 
 Notation "x <<- e ;; k" := (wbind e (fun x => k)) (at level 61, e at next level, right associativity).
 Notation "' p <<- e ;; k" := (wbind e (fun x => let p := x in k)) (at level 61, p pattern, e at next level, right associativity).
@@ -144,7 +155,8 @@ Definition first_of (t : N) (ms : list msg_spec) : option bytes :=
   match msgs_of t ms with m :: _ => Some (ms_data m) | [] => None end.
 Definition has_msg (t : N) (ms : list msg_spec) : bool := match msgs_of t ms with [] => false | _ => true end.
 (* the message types the walker interprets or may skip (h5spec.py `known`) *)
-Definition known_types : list N := [1; 2; 3; 4; 5; 6; 8; 10; 11; 12; 15; 17; 18; 21; 22].
+(* 7 external data files, 13 object comment, 14 old modification time: skipped *)
+Definition known_types : list N := [1; 2; 3; 4; 5; 6; 7; 8; 10; 11; 12; 13; 14; 15; 17; 18; 21; 22].
 Definition once_types : list N := [1; 3; 5; 8; 11; 17; 21; 15; 22; 2].
 
 Record wctx := { cO : nat; cL : nat; c_leafK : N; c_intK : N; c_istoreK : N }.
@@ -165,7 +177,7 @@ Definition u (a n : N) : outcome N := b <- rd a n;; Ok (unle b).
 
 (* a visited structure [s, e): non-empty and inside the file, or the walk fails *)
 Definition add_ext (s e k : N) : W unit :=
-  fun st => if (s <? e) && (e <=? flen) then Ok (tt, set_ext ((s, e, k) :: ws_ext st) st) else Err.
+  fun st => if (s <? e) && (e <=? flen) then WOk (tt, set_ext ((s, e, k) :: ws_ext st) st) else WErr 3.
 Definition add_soft (s e k : N) (x : xtag) : W unit :=
   wupd (fun r => {| r_soft := ((s, e, k), x) :: r_soft r; r_tags := r_tags r; r_sum := r_sum r; r_seen := r_seen r;
                     r_links := r_links r; r_refs := r_refs r; r_stab := r_stab r |}).
@@ -189,8 +201,8 @@ Definition add_stab (a bt hp : N) : W unit :=
   wupd (fun r => {| r_soft := r_soft r; r_tags := r_tags r; r_sum := r_sum r; r_seen := r_seen r;
                     r_links := r_links r; r_refs := r_refs r; r_stab := (a, (bt, hp)) :: r_stab r |}).
 (* deviations: allowed only when the tolerance says so, and then reported *)
-Definition sdev (t : tag) : W unit := if tol (WS t) then add_wtags [WS t] else werr.
-Definition xdev (x : xtag) : W unit := if tol (WX x) then add_wtags [WX x] else werr.
+Definition sdev (t : tag) : W unit := if tol (WS t) then add_wtags [WS t] else wfail (200 + tag_code t).
+Definition xdev (x : xtag) : W unit := if tol (WX x) then add_wtags [WX x] else wfail (200 + xtag_code x).
 Definition xdevif (c : bool) (x : xtag) : W unit := if c then xdev x else wret tt.
 
 (* ------------------------------------------------------------------ superblock *)
@@ -201,9 +213,10 @@ Definition walk_superblock : W superblock_spec :=
       _ <<- add_stags tg;;
       let o := N.to_nat (sbs_O s) in
       (* no driver information block, no superblock extension, base address 0: nothing else is implemented *)
-      _ <<- wguard ((sbs_driver s =? undef o) && (sbs_ext s =? undef o) && (sbs_base s =? 0));;
+      _ <<- wguardc 11 (sbs_driver s =? undef o);;
+      _ <<- wguardc 6 (sbs_base s =? 0);;
       wret s
-  | _ => werr
+  | _ => wfail 10
   end.
 
 Section Ctx.
@@ -226,7 +239,7 @@ Definition cont1_body (rec : list msg_spec -> W (list msg_spec)) (ms : list msg_
          else wret [m]) ms;;
   wret (concat r).
 Fixpoint cont1 (fuel : nat) : list msg_spec -> W (list msg_spec) :=
-  match fuel with O => fun _ => werr | S n => cont1_body (cont1 n) end.
+  match fuel with O => fun _ => wfail 4 | S n => cont1_body (cont1 n) end.
 
 (* version 2: "OCHK" blocks; with its checksum the block is [ca, ca+cl), without (listed deviation) [ca, ca+cl-4) *)
 Definition cont2_body (corder : bool) (rec : list msg_spec -> W (list msg_spec)) (ms : list msg_spec) : W (list msg_spec) :=
@@ -248,7 +261,7 @@ Definition cont2_body (corder : bool) (rec : list msg_spec -> W (list msg_spec))
          else wret [m]) ms;;
   wret (concat r).
 Fixpoint cont2 (corder : bool) (fuel : nat) : list msg_spec -> W (list msg_spec) :=
-  match fuel with O => fun _ => werr | S n => cont2_body corder (cont2 corder n) end.
+  match fuel with O => fun _ => wfail 4 | S n => cont2_body corder (cont2 corder n) end.
 
 (* -> (prefix version, reference count of a version 1 prefix, the messages without continuation and NIL messages) *)
 Definition ohdr_walk (fuel : nat) (addr : N) : W (N * option N * list msg_spec) :=
@@ -265,9 +278,9 @@ Definition ohdr_walk (fuel : nat) (addr : N) : W (N * option N * list msg_spec) 
         _ <<- add_stags tg;;
         ms <<- cont2 (N.testbit fl 2) fuel (o2_msgs h);;
         (* shared messages are not implemented *)
-        _ <<- wguard (forallb (fun m => negb (N.testbit (ms_flags m) 1)) ms);;
+        _ <<- wguardc 14 (forallb (fun m => negb (N.testbit (ms_flags m) 1)) ms);;
         wret (2, None, filter (fun m => negb (is_cont m) && negb (ms_type m =? 0)) ms)
-    | _ => werr
+    | _ => wfail 12
     end
   else
     hs <<- wl (u (addr + 8) 4);;
@@ -276,9 +289,9 @@ Definition ohdr_walk (fuel : nat) (addr : N) : W (N * option N * list msg_spec) 
     | Ok (h, []) =>
         _ <<- add_ext addr (addr + 16 + hs) K_ohdr1;;
         ms <<- cont1 fuel (o1_msgs h);;
-        _ <<- wguard (lenN ms =? o1_nmsgs h);;
-        wret (1, Some (o1_refcount h), filter (fun m => negb (is_cont m)) ms)
-    | _ => werr
+        _ <<- wguardc 15 (lenN ms =? o1_nmsgs h);;
+        wret (1, Some (o1_refcount h), filter (fun m => negb (is_cont m) && negb (ms_type m =? 0)) ms)
+    | _ => wfail 13
     end.
 
 (* ------------------------------------------------------------------ local heap, group B-tree, symbol table nodes *)
@@ -296,7 +309,7 @@ Definition local_heap (addr : N) : W bytes :=
       seg <<- wl (rd (lh_addr h) (lh_size h));;
       _ <<- wguard (lheap_free_ok (S (length seg)) (cL c) seg (lh_free h));;
       wret seg
-  | _ => werr
+  | _ => wfail 17
   end.
 
 Definition snod_walk (seg : bytes) (addr : N) : W (list gentry) :=
@@ -312,7 +325,7 @@ Definition snod_walk (seg : bytes) (addr : N) : W (list gentry) :=
       names <<- wl (omapM (fun e => heap_str seg (se_name_off e)) es);;
       _ <<- xdevif (negb (increasing names)) X_snod_unsorted;;
       wret (map (fun p => {| ge_e := fst p; ge_name := snd p |}) (combine es names))
-  | _ => werr
+  | _ => wfail 18
   end.
 
 (* the common part of a v1 B-tree node visit: decode, extent, full-capacity region, sibling and level checks *)
@@ -330,7 +343,7 @@ Definition btree1_node (ntype : N) (nd : nat) (K : N) (kind : N) (addr : N) (top
       _ <<- wguard (if top then (b1_left b =? undefO) && (b1_right b =? undefO) else true);;
       _ <<- wguard (match level with Some l => b1_level b =? l | None => true end);;
       wret b
-  | _ => werr
+  | _ => wfail 19
   end.
 
 Definition gbtree_body (seg : bytes) (rec : N -> bool -> option N -> W (list gentry)) (addr : N) (top : bool) (level : option N)
@@ -345,7 +358,7 @@ Definition gbtree_body (seg : bytes) (rec : N -> bool -> option N -> W (list gen
   _ <<- xdevif (existsb (fun r => negb (snd r)) res) X_btree1_group_keys;;
   wret (concat (map fst res)).
 Fixpoint gbtree (seg : bytes) (fuel : nat) : N -> bool -> option N -> W (list gentry) :=
-  match fuel with O => fun _ _ _ => werr | S n => gbtree_body seg (gbtree seg n) end.
+  match fuel with O => fun _ _ _ => wfail 4 | S n => gbtree_body seg (gbtree seg n) end.
 
 (* ------------------------------------------------------------------ chunk B-tree *)
 Definition cbtree_body (nd : nat) (rec : N -> bool -> option N -> W (list chunk_rec)) (addr : N) (top : bool) (level : option N)
@@ -358,7 +371,7 @@ Definition cbtree_body (nd : nat) (rec : N -> bool -> option N -> W (list chunk_
   else
     wret (map (fun p : list N * N => (nth 0 (fst p) 0, nth 1 (fst p) 0, skipn 2 (fst p), snd p)) (combine (b1_keys b) (b1_children b))).
 Fixpoint cbtree (nd : nat) (fuel : nat) : N -> bool -> option N -> W (list chunk_rec) :=
-  match fuel with O => fun _ _ _ => werr | S n => cbtree_body nd (cbtree nd n) end.
+  match fuel with O => fun _ _ _ => wfail 4 | S n => cbtree_body nd (cbtree nd n) end.
 
 (* ------------------------------------------------------------------ dense attribute storage *)
 Definition block_rec : Type := (N * N * N * N)%type.       (* heap offset, size, file address, prefix size *)
@@ -375,11 +388,11 @@ Definition fheap_walk (addr : N) : W (fheap_spec * list block_rec) :=
   bs <<- wl (rd addr size);;
   match spec_dec_fheap_hdr stol (cO c) (cL c) bs with
   | Ok (h, tg, []) =>
-      _ <<- wguard (fh_filtlen h =? 0);;
+      _ <<- wguardc 23 (fh_filtlen h =? 0);;
       _ <<- add_ext addr (addr + size) K_fheap_hdr;;
       _ <<- add_stags tg;;
-      (* huge objects / a free-space manager are not implemented *)
-      _ <<- wguard (((fh_hugebt h =? 0) || (fh_hugebt h =? undefO)) && ((fh_fsaddr h =? 0) || (fh_fsaddr h =? undefO)));;
+      (* huge objects are not implemented; the free-space manager of the managed blocks is not followed *)
+      _ <<- wguardc 23 ((fh_hugebt h =? 0) || (fh_hugebt h =? undefO));;
       let offsz := (fh_maxheap h + 7) / 8 in
       let lensz := nbytes_for (N.min (fh_maxdirect h) (fh_maxobj h)) in
       _ <<- wguard (1 + offsz + lensz <=? fh_idlen h);;
@@ -387,10 +400,10 @@ Definition fheap_walk (addr : N) : W (fheap_spec * list block_rec) :=
                   else if fh_currows h =? 0 then
                     pre <<- dblock h addr offsz (fh_root h) 0 (fh_start h);;
                     wret [(0, fh_start h, fh_root h, pre)]
-                  else werr);;
+                  else wfail 24);;
       _ <<- wguard (fh_manalloc h =? sumN (map (fun b : block_rec => snd (fst (fst b))) blocks));;
       wret (h, blocks)
-  | _ => werr
+  | _ => wfail 26
   end.
 
 Definition btree2_walk (addr : N) : W (bt2hdr_spec * list bytes) :=
@@ -400,7 +413,7 @@ Definition btree2_walk (addr : N) : W (bt2hdr_spec * list bytes) :=
   | Ok (h, tg, []) =>
       _ <<- add_ext addr (addr + size) K_btree2_hdr;;
       _ <<- add_stags tg;;
-      _ <<- wguard (b2_depth h =? 0);;
+      _ <<- wguardc 25 (b2_depth h =? 0);;
       if b2_nroot h =? 0 then wret (h, [])
       else
         lb <<- wl (rd (b2_root h) (b2_nodesize h));;
@@ -408,7 +421,7 @@ Definition btree2_walk (addr : N) : W (bt2hdr_spec * list bytes) :=
         _ <<- add_ext (b2_root h) (b2_root h + b2_nodesize h) K_btree2_leaf;;
         _ <<- add_stags tg2;;
         wret (h, recs)
-  | _ => werr
+  | _ => wfail 27
   end.
 
 (* the bytes a managed heap ID addresses; [lib]: offsets count from the end of the block prefix *)
@@ -439,13 +452,19 @@ Definition dense_mode (h : fheap_spec) (blocks : list block_rec) (recs : list (N
 (* the attribute info message -> names of the densely stored attributes *)
 Definition dense_attrs (d : bytes) : W (list bytes) :=
   ai <<- wl (spec_dec_attrinfo (cO c) false d);;
-  match ais_btorder ai with
-  | Some _ => werr                       (* creation order index: not implemented *)
-  | None =>
+  match (match ais_btorder ai with Some bo => negb (bo =? undefO) && (ais_heap ai =? undefO) | None => false end) with
+  | true => wfail 22                      (* a creation order index without a heap *)
+  | false =>
     if (ais_heap ai =? undefO) && (ais_btname ai =? undefO) then wret []
     else
       '(h, blocks) <<- fheap_walk (ais_heap ai);;
       '(bt, raw) <<- btree2_walk (ais_btname ai);;
+      (* the creation order index (B-tree type 9) holds the same number of records *)
+      _ <<- match ais_btorder ai with
+            | Some bo => if bo =? undefO then wret tt
+                         else '(bt9, raw9) <<- btree2_walk bo;; wguardc 22 ((b2_type bt9 =? 9) && (lenN raw9 =? lenN raw))
+            | None => wret tt
+            end;;
       recs <<- (if b2_type bt =? 8 then
                   _ <<- wguard (b2_recsize bt =? fh_idlen h + 9);;
                   wret (map (fun r => (unle (skipn (length r - 4) r), firstn (N.to_nat (fh_idlen h)) r)) raw)
@@ -461,10 +480,39 @@ Definition dense_attrs (d : bytes) : W (list bytes) :=
       | _ =>
           match dense_mode h blocks recs true with
           | Ok l => _ <<- xdev X_fheap_offset_excludes_block_prefix;; _ <<- add_stags (concat (map snd l));; wret (map fst l)
-          | _ => werr
+          | _ => wfail 28
           end
       end
   end.
+
+(* ------------------------------------------------------------------ new-style groups: the link info message -> densely stored links
+   (fractal heap of link messages, name index: v2 B-tree type 5 with records hash of the name (4) | heap ID (7); creation order
+   index: type 6) *)
+Definition dense_links (pad : bool) (d : bytes) : W (list link_spec) :=
+  li <<- wlc 40 (spec_dec_linkinfo (cO c) pad d);;
+  if lis_heap li =? undefO then _ <<- wguard (lis_btname li =? undefO);; wret []
+  else
+    '(h, blocks) <<- fheap_walk (lis_heap li);;
+    '(bt, raw) <<- btree2_walk (lis_btname li);;
+    _ <<- wguard ((b2_type bt =? 5) && (b2_recsize bt =? 11) && (fh_idlen h =? 7));;
+    _ <<- match lis_btorder li with
+          | Some bo => if bo =? undefO then wret tt
+                       else '(bt6, raw6) <<- btree2_walk bo;; wguardc 22 ((b2_type bt6 =? 6) && (lenN raw6 =? lenN raw))
+          | None => wret tt
+          end;;
+    let recs := map (fun r => (unle (firstn 4 r), firstn 7 (skipn 4 r))) raw in
+    _ <<- wguard (lenN recs =? fh_nman h);;
+    _ <<- wguard (nondecreasingN (map fst recs));;
+    match omapM (fun r : N * bytes =>
+                   obj <- heap_object h blocks (snd r) false;;
+                   '(l, tg) <- spec_dec_link stol (cO c) false obj;;
+                   _ <- guard (spec_checksum (ls_name l) =? fst r);;
+                   Ok (l, tg)) recs with
+    | Ok l => _ <<- add_stags (concat (map snd l));; wret (map fst l)
+    | _ => wfail 28
+    end.
+
+Definition link_type (l : link_spec) : N := match ls_value l with LHard _ => 0 | LSoft _ => 1 | LExternal _ _ => 64 end.
 
 (* ------------------------------------------------------------------ raw data of a dataset *)
 Definition dataset_data (cb : nat -> N -> bool -> option N -> W (list chunk_rec))
@@ -497,6 +545,18 @@ Definition dataset_data (cb : nat -> N -> bool -> option N -> W (list chunk_rec)
                  if filtered then wret tt else wguard ((mask =? 0) && (nbytes =? csize))) chunks
   end.
 
+(* the low bits of the class bit field that carry byte order (bit 0), signedness (integers: bit 3), string padding (bits 0-3)
+   and character set (bits 4-7), variable-length type (bits 0-3) / padding (4-7) / character set (8-11) *)
+Definition dtype_bits (t : dtype) : N :=
+  match t with
+  | DFixed _ _ order _ _ signed _ _ => order + (if signed then 8 else 0)
+  | DFloat _ _ order _ _ _ _ _ _ _ _ _ _ => order
+  | DTime _ _ order _ => order
+  | DString _ _ pad cset => pad + 16 * cset
+  | DBitfield _ _ order _ _ _ _ => order
+  | DVlen _ _ vtype pad cset _ => vtype + 16 * pad + 256 * cset
+  | _ => 0
+  end.
 Definition layout_code (l : layout_spec) : N := match l with LyCompact _ => 0 | LyContiguous _ _ => 1 | LyChunked _ _ => 2 end.
 
 (* ------------------------------------------------------------------ one object *)
@@ -506,8 +566,8 @@ Definition obj_body (fuel : nat) (rec : N -> bytes -> W unit) (addr : N) (path :
   _ <<- mark_seen addr;;
   '(ver, rc0, ms) <<- ohdr_walk fuel addr;;
   let pad := ver =? 1 in
-  _ <<- wguard (forallb (fun m => memN (ms_type m) known_types) ms);;
-  _ <<- wguard (forallb (fun t => lenN (msgs_of t ms) <=? 1) once_types);;
+  _ <<- match filter (fun m => negb (memN (ms_type m) known_types)) ms with [] => wret tt | m :: _ => wfail (1000 + ms_type m) end;;
+  _ <<- wguardc 16 (forallb (fun t => lenN (msgs_of t ms) <=? 1) once_types);;
   (* reference count *)
   rc <<- match first_of 22 ms with
          | Some d => '(n, tg) <<- wl (spec_dec_refcount stol pad d);; _ <<- add_stags tg;; wret n
@@ -515,7 +575,7 @@ Definition obj_body (fuel : nat) (rec : N -> bytes -> W unit) (addr : N) (path :
          end;;
   _ <<- add_ref addr rc;;
   (* attributes: compact, then dense *)
-  cnames <<- wmapM (fun m => '(a, tg) <<- wl (spec_dec_attribute stol (cL c) pad (ms_data m));; _ <<- add_stags tg;; wret (as_name a))
+  cnames <<- wmapM (fun m => '(a, tg) <<- wlc 37 (spec_dec_attribute stol (cL c) pad (ms_data m));; _ <<- add_stags tg;; wret (as_name a))
                    (msgs_of 12 ms);;
   _ <<- (if has_msg 15 ms then _ <<- sdev T_attrinfo_type_0x0f;; wguard (negb (has_msg 21 ms)) else wret tt);;
   dnames <<- match (if has_msg 15 ms then first_of 15 ms else first_of 21 ms) with
@@ -532,10 +592,13 @@ Definition obj_body (fuel : nat) (rec : N -> bytes -> W unit) (addr : N) (path :
       seg <<- local_heap hp;;
       ents <<- gbtree seg fuel bt true None;;
       _ <<- wguard (nodupb (map ge_name ents) && forallb (fun e => negb (length (ge_name e) =? 0)%nat) ents);;
-      _ <<- wguard (forallb (fun e => negb (se_cache (ge_e e) =? 2)) ents);;      (* symbolic link entries: not implemented *)
+      (* symbolic link entries (cache type 2): the link value is a string in the local heap *)
+      _ <<- wlc 21 (omapM (fun e => if se_cache (ge_e e) =? 2 then heap_str seg (se_link_off (ge_e e)) else Ok []) ents);;
       _ <<- add_sum {| os_addr := addr; os_path := path; os_kind := 1; os_dims := []; os_dtclass := 0; os_dtsize := 0;
-                       os_layout := 0; os_attrs := names |};;
+                       os_layout := 0; os_attrs := names; os_dtbits := 0; os_space := 0;
+                       os_links := map (fun e => (if se_cache (ge_e e) =? 2 then 1 else 0, ge_name e)) ents |};;
       wforM (fun e =>
+               if se_cache (ge_e e) =? 2 then wret tt else
                let child := se_obj (ge_e e) in
                _ <<- add_link child;;
                _ <<- rec child (join_path path (ge_name e));;
@@ -548,41 +611,62 @@ Definition obj_body (fuel : nat) (rec : N -> bytes -> W unit) (addr : N) (path :
                  end
                else wret tt) ents
   | None =>
-    if has_msg 2 ms then werr                                   (* new-style group: not implemented *)
+    if has_msg 2 ms then
+      (* a new-style group: links in link messages (compact) or in a fractal heap (dense), never both *)
+      clinks <<- wmapM (fun m => '(l, tg) <<- wlc 39 (spec_dec_link stol (cO c) pad (ms_data m));; _ <<- add_stags tg;; wret l) (msgs_of 6 ms);;
+      dlinks <<- match first_of 2 ms with Some d => dense_links pad d | None => wret [] end;;
+      _ <<- wguard (match clinks, dlinks with _ :: _, _ :: _ => false | _, _ => true end);;
+      let links := clinks ++ dlinks in
+      _ <<- wguard (nodupb (map ls_name links));;
+      _ <<- wguard (negb (has_msg 8 ms) && negb (has_msg 3 ms) && negb (has_msg 1 ms));;
+      _ <<- add_sum {| os_addr := addr; os_path := path; os_kind := 1; os_dims := []; os_dtclass := 0; os_dtsize := 0;
+                       os_layout := 0; os_attrs := names; os_dtbits := 0; os_space := 0;
+                       os_links := map (fun l => (link_type l, ls_name l)) links |};;
+      wforM (fun l => match ls_value l with
+                      | LHard child => _ <<- add_link child;; rec child (join_path path (ls_name l))
+                      | _ => wret tt
+                      end) links
     else if has_msg 6 ms then
       _ <<- sdev T_softlink_stored_as_object;;
       _ <<- wforM (fun m => '(_, tg) <<- wl (spec_dec_link stol (cO c) false (ms_data m));; add_stags tg) (msgs_of 6 ms);;
       add_sum {| os_addr := addr; os_path := path; os_kind := 3; os_dims := []; os_dtclass := 0; os_dtsize := 0;
-                 os_layout := 0; os_attrs := names |}
+                 os_layout := 0; os_attrs := names; os_dtbits := 0; os_space := 0; os_links := [] |}
     else
       match first_of 8 ms, first_of 3 ms, first_of 1 ms with
       | Some lyb, Some dtb, Some dsb =>
-          '(dt, tg) <<- wl (spec_dec_datatype stol pad dtb);;
+          '(dt, tg) <<- wlc 31 (spec_dec_datatype stol pad dtb);;
           _ <<- add_stags tg;;
-          ds <<- wl (spec_dec_dataspace (cL c) pad dsb);;
-          lay <<- wl (spec_dec_layout (cO c) (cL c) false lyb);;
+          ds <<- wlc 32 (spec_dec_dataspace (cL c) pad dsb);;
+          lay <<- wlc 33 (spec_dec_layout (cO c) (cL c) pad lyb);;
           filtered <<- match first_of 11 ms with
                        | Some pb =>
-                           '(fs, tg) <<- wl (spec_dec_pipeline stol false pb);;
+                           '(fs, tg) <<- wlc 34 (spec_dec_pipeline stol pad pb);;
                            _ <<- add_stags tg;;
-                           _ <<- wguard (forallb (fun x => memN (fl_id x) [1; 2; 3]) fs);;
                            wret true
                        | None => wret false
                        end;;
           _ <<- (if negb (has_msg 5 ms) && negb (has_msg 4 ms) then sdev T_dataset_no_fillvalue_msg
                  else match first_of 5 ms with
-                      | Some fv => v <<- wl (spec_dec_fillvalue pad fv);; wguard (negb (fv_defined v))     (* defined fill value: not implemented *)
+                      | Some fv => v <<- wlc 36 (spec_dec_fillvalue pad fv);; wret tt
                       | None => wret tt
                       end);;
-          _ <<- wguard (negb filtered || (layout_code lay =? 2));;
+          _ <<- wguardc 38 (negb filtered || (layout_code lay =? 2));;
           _ <<- add_sum {| os_addr := addr; os_path := path; os_kind := 2; os_dims := dss_dims ds; os_dtclass := dtype_class dt;
-                           os_dtsize := dtype_size dt; os_layout := layout_code lay; os_attrs := names |};;
+                           os_dtsize := dtype_size dt; os_layout := layout_code lay; os_attrs := names;
+                           os_dtbits := dtype_bits dt; os_space := dss_type ds; os_links := [] |};;
           dataset_data (fun nd => cbtree nd fuel) lay (dtype_size dt) (dss_dims ds) (nelem ds * dtype_size dt) filtered
-      | _, _, _ => werr
+      | None, Some dtb, None =>
+          (* a committed datatype *)
+          '(dt, tg) <<- wlc 31 (spec_dec_datatype stol pad dtb);;
+          _ <<- add_stags tg;;
+          add_sum {| os_addr := addr; os_path := path; os_kind := 4; os_dims := []; os_dtclass := dtype_class dt;
+                     os_dtsize := dtype_size dt; os_layout := 0; os_attrs := names; os_dtbits := dtype_bits dt; os_space := 0;
+                     os_links := [] |}
+      | _, _, _ => wfail 30
       end
   end.
 Fixpoint walk_obj (fuel : nat) : N -> bytes -> W unit :=
-  match fuel with O => fun _ _ => werr | S n => obj_body n (walk_obj n) end.
+  match fuel with O => fun _ _ => wfail 4 | S n => obj_body n (walk_obj n) end.
 
 (* ------------------------------------------------------------------ the cross-structure clauses after the traversal *)
 Definition finish (sb : superblock_spec) : W unit :=
@@ -619,6 +703,17 @@ Definition walk_all (fuel : nat) : W superblock_spec :=
   sb <<- walk_superblock;;
   let c := {| cO := N.to_nat (sbs_O sb); cL := N.to_nat (sbs_L sb); c_leafK := sbs_leafK sb; c_intK := sbs_intK sb;
               c_istoreK := sbs_istoreK sb |} in
+  (* the superblock extension: an object header with the B-tree 'K' values (0x13), shared message table (0x0f) and file space
+     info (0x17) messages; driver information (0x14) is not followed *)
+  ks <<- (if sbs_ext sb =? undef (cO c) then wret (c_leafK c, c_intK c, c_istoreK c)
+          else
+            '(ver, _, ms) <<- ohdr_walk c fuel (sbs_ext sb);;
+            _ <<- wguardc 5 (forallb (fun m => memN (ms_type m) [15; 19; 23]) ms);;
+            match first_of 19 ms with
+            | Some d => wlc 5 (spec_dec_btreek (ver =? 1) d)
+            | None => wret (c_leafK c, c_intK c, c_istoreK c)
+            end);;
+  let c := {| cO := cO c; cL := cL c; c_leafK := fst (fst ks); c_intK := snd (fst ks); c_istoreK := snd ks |} in
   _ <<- walk_obj c fuel (sbs_root sb) [slash];;
   _ <<- add_link (sbs_root sb);;
   _ <<- finish sb;;
@@ -626,7 +721,7 @@ Definition walk_all (fuel : nat) : W superblock_spec :=
 
 Definition walk_run (fuel : nat) : outcome walk_result :=
   match walk_all fuel st0 with
-  | Ok (sb, st) => Ok {| wr_extents := ws_ext st; wr_tree := ws_sum st; wr_tags := ws_tags st; wr_eof := sbs_eof sb;
+  | WOk (sb, st) => Ok {| wr_extents := ws_ext st; wr_tree := ws_sum st; wr_tags := ws_tags st; wr_eof := sbs_eof sb;
                          wr_version := sbs_version sb |}
   | _ => Err
   end.
@@ -634,6 +729,9 @@ Definition walk_run (fuel : nat) : outcome walk_result :=
 End Walk.
 
 Definition walk (tol : wtolerance) (fuel : nat) (f : bytes) : outcome walk_result := walk_run f (blen f) tol fuel.
+(* why a walk rejects: 0 when it accepts, else the reason code of the clause that failed first *)
+Definition walk_code (tol : wtolerance) (fuel : nat) (f : bytes) : N :=
+  match walk_all f (blen f) tol fuel st0 with WOk _ => 0 | WErr c => c end.
 
 (* fuel that is ample for every file the tie meets: one unit per nesting level (groups, B-tree levels, continuation
    chains); not proved sufficient in general - more fuel never changes an accepted answer (Proofs/Walk.v) *)
